@@ -157,6 +157,11 @@ def _me():
     return getattr(threading.current_thread(), "vt_proc", None)
 
 
+class _Pickled:
+    def __init__(self, data):
+        self.data = data
+
+
 class FakeQueue:
     def __init__(self):
         self.items = []
@@ -184,8 +189,9 @@ class FakeQueue:
             _sched.lazy_kick()
         if self.items:
             import pickle
-            # results cross a process boundary: what the worker pickled must be loadable by the parent
-            return pickle.loads(pickle.dumps(self.items.pop(0)))
+            # results cross a process boundary: what the worker's feeder pickled must be loadable by the parent
+            item = self.items.pop(0)
+            return pickle.loads(item.data) if isinstance(item, _Pickled) else item
         _sched.empties += 1
         if _sched.empties > 200:
             raise RuntimeError("VT-NONTERMINATION: parent polled an empty queue 200 times without progress")
@@ -215,8 +221,14 @@ class FakeProcess:
         _sched.workers.append(self)
 
     def flush(self):
+        import pickle
         for (q, item) in self.buffer:
-            q.items.append(item)
+            # the feeder thread pickles the item; an object that cannot be pickled is dropped there (the error is
+            # only printed in the worker) and never reaches the parent
+            try:
+                q.items.append(_Pickled(pickle.dumps(item)))
+            except Exception:  # noqa
+                pass
         self.buffer = []
 
     def park(self, state):
@@ -278,8 +290,46 @@ class FakeProcess:
         pass
 
 
+class FakeSimpleQueue(FakeQueue):
+    """multiprocessing.SimpleQueue: no feeder thread, put() writes the pickled item straight into an OS pipe (64 KiB) and
+    blocks while the pipe is full; with no reader running that is for ever"""
+    PIPE = 65536
+
+    def __init__(self):
+        super().__init__()
+        self.pending = 0
+
+    def put(self, item, *a, **kw):
+        import pickle
+        data = pickle.dumps(item)
+        w = _me()
+        if w is not None:
+            w.wait_queue = self
+            w.park("want_put")
+        if self.pending + len(data) > self.PIPE and not any(x.started for x in _sched.workers):
+            raise RuntimeError("VT-NONTERMINATION: SimpleQueue.put() blocks: pipe full (%d bytes pending) and no reader started"
+                               % self.pending)
+        self.pending += len(data)
+        self.items.append(_Pickled(data))
+
+    def get(self, block=True, timeout=None):
+        import pickle
+        w = _me()
+        if w is not None:
+            w.wait_queue = self
+            w.park("want_get")
+            item = self.items.pop(0)
+            self.pending -= len(item.data)
+            return pickle.loads(item.data)
+        return super().get(block, timeout)
+
+    def empty(self):
+        return not self.items
+
+
 class FakeMP:
     Queue = FakeQueue
+    SimpleQueue = FakeSimpleQueue
     Process = FakeProcess
 
     @staticmethod
@@ -295,13 +345,20 @@ class FakeMP:
         return 4
 
 
-def task(dev_id, raising=()):
-    if dev_id in raising:
-        raise ValueError("boom %s" % dev_id)
-    return dev_id * 7 + 1
+def _num(dev_id):
+    return int(dev_id.split(":")[0]) if isinstance(dev_id, str) else dev_id
 
 
-def run_schedule(n, pool, max_tasks, raising, tolerate, decisions, tail, via_run=False):
+def task(dev_id, raising=(), unpicklable=()):
+    if _num(dev_id) in raising:
+        raise ValueError("boom %s" % _num(dev_id))
+    if _num(dev_id) in unpicklable:
+        # a plain container that holds something that cannot cross the process boundary
+        return ["text", (x for x in ())]
+    return _num(dev_id) * 7 + 1
+
+
+def run_schedule(n, pool, max_tasks, raising, tolerate, decisions, tail, via_run=False, big=False):
     """Execute the real pool under one concrete schedule.  Returns (ok, detail, nworkers_with_results)."""
     global _sched
     import annet.parallel as par
@@ -311,21 +368,24 @@ def run_schedule(n, pool, max_tasks, raising, tolerate, decisions, tail, via_run
     _sched.empties = 0
     par.mp = FakeMP
     par.os = _OsProxy()
-    ids = list(range(n))
+    # big: ids the size of long file paths / texts (what file-diff submits), 40 KB each
+    ids = ["%d:%s" % (i, "x" * 40000) for i in range(n)] if big else list(range(n))
+    unp = tuple(_num(ids[0]) for _ in (1,) if "unp" in raising)
+    raising = [r for r in raising if r != "unp"]
     delivered = []
     raised = None
     try:
-        p = par.Parallel(task, raising=tuple(raising)).tune(parallel=pool, max_tasks=max_tasks)
+        p = par.Parallel(task, raising=tuple(raising), unpicklable=unp).tune(parallel=pool, max_tasks=max_tasks)
         try:
             if via_run:
                 ok_d, fail_d = p.run(ids, tolerate_fails=tolerate)
                 for k, v in ok_d.items():
-                    delivered.append((k, v, None))
+                    delivered.append((_num(k), v, None))
                 for k, v in fail_d.items():
-                    delivered.append((k, None, "exc"))
+                    delivered.append((_num(k), None, "exc"))
             else:
                 for res in p.irun(ids, tolerate_fails=tolerate):
-                    delivered.append((res.device_id, res.result, None if res.exc is None else "exc"))
+                    delivered.append((_num(res.device_id), res.result, None if res.exc is None else "exc"))
                     _sched.empties = 0
                     _sched.point("yield")
         except RuntimeError as e:
@@ -339,11 +399,12 @@ def run_schedule(n, pool, max_tasks, raising, tolerate, decisions, tail, via_run
         par.os = saved_os
         _sched.shutdown()
     workers_used = len(set(t.split(":")[0] for t in _sched.trace if t.endswith("want_put")))
-    want = sorted((i, None if i in raising else i * 7 + 1, "exc" if i in raising else None) for i in ids)
+    bad_ids = set(raising) | set(unp)
+    want = sorted((i, None if i in bad_ids else i * 7 + 1, "exc" if i in bad_ids else None) for i in range(n))
     got = sorted(delivered, key=lambda x: (x[0], str(x[1])))
-    detail = {"submitted": ids, "delivered": got, "order": list(delivered), "raised": raised, "trace": _sched.trace[-40:]}
+    detail = {"submitted": list(range(n)), "delivered": got, "order": list(delivered), "raised": raised, "trace": _sched.trace[-40:]}
     if raised is not None:
-        if not tolerate and raising and "boom" in raised:
+        if not tolerate and bad_ids and ("boom" in raised or "pickle" in raised.lower()):
             # the documented abort: no duplicates among what was delivered before
             ok = len(set(d[0] for d in delivered)) == len(delivered)
             return ok, detail, workers_used
@@ -359,7 +420,7 @@ NS = [2, 3] if rt.TIER == "quick" else [2, 3, 4]
 K = int(os.environ.get("VT_KDEC", "6" if rt.TIER == "quick" else "8"))
 POOL = int(os.environ.get("VT_POOL", "2"))
 MAXT = [1, 2, 25]
-RAISE = [(), (0,), ("last",)]
+RAISE = [(), (0,), ("last",), ("unp",)]
 RAD = [POOL + 1] * K + [len(NS), len(MAXT), len(RAISE), 2, 2]
 NCASE = 1
 for _r in RAD:
@@ -428,6 +489,22 @@ def h_single(case: int) -> bool:
     return ok
 
 
+def h_big(case: int) -> bool:
+    """
+    pre: 0 <= case < 108
+    post: _ == True
+    """
+    # ids of 40 KB each (long paths / texts): whatever carries the tasks must not stall before the workers run
+    c = pick(case, 108)
+    with NoTracing():
+        ds = digits(c, [3, 3, 3, 2, 2])
+        n, tail = [2, 3][ds[3]], ["eager", "lazy"][ds[4]]
+        ok, detail, used = run_schedule(n, 2, 25, (), True, ds[:3], tail, big=True)
+        cs = {"n": n, "pool": 2, "max_tasks": 25, "raising": [], "tolerate": True, "decisions": ds[:3], "tail": tail, "big": True}
+        rt.record(cs, ok, cs, detail=detail, fingerprint=_fp(cs, detail, ok))
+    return ok
+
+
 def h_twin(case: int) -> bool:
     """
     pre: 0 <= case < 81
@@ -447,6 +524,7 @@ def h_twin(case: int) -> bool:
 def plan(tier):
     q = tier == "quick"
     obs = [dict(name="single", func="h_single", shards=1, timeout=120),
+           dict(name="big-ids", func="h_big", shards=2, timeout=200),
            dict(name="twin", func="h_twin", shards=1, timeout=120, expect="refuted")]
     for pool in ([2] if q else [2, 3]):
         obs.append(dict(name="sched.pool%d" % pool, func="h_sched", shards=16 if q else 48, timeout=280 if q else 3000,
@@ -457,5 +535,5 @@ def plan(tier):
 
 def replay(obligation, case):
     ok, detail, _ = run_schedule(case["n"], case["pool"], case["max_tasks"], case["raising"], case["tolerate"],
-                                 case["decisions"], case["tail"], via_run=case.get("via_run", False))
+                                 case["decisions"], case["tail"], via_run=case.get("via_run", False), big=case.get("big", False))
     return {"ok": ok, "detail": detail, "fingerprint": _fp(case, detail, ok)}
